@@ -119,6 +119,103 @@ def classify(lex, kinds):
     return {d for d in declared if d not in banned and d not in WGSL_KEYWORDS}, frozen
 
 
+def decl_scopes(lex, kinds):
+    """spelling -> subset of {'module', 'local', 'member'}: where the WGSL program declares that spelling
+    (module scope; function parameter or local; struct member)"""
+    n = len(lex)
+    out = {}
+    depth = 0
+    i = 0
+    while i < n:
+        lx = lex[i]
+        if lx == "{":
+            depth += 1
+        elif lx == "}":
+            depth -= 1
+        elif lx in DECL_KW and i + 1 < n and (i == 0 or lex[i - 1] != "."):
+            j = i + 1
+            if lx == "var" and lex[j] == "<":
+                while j < n and lex[j] != ">":
+                    j += 1
+                j += 1
+            if j < n and kinds[j] == "Ident":
+                out.setdefault(lex[j], set()).add("module" if depth == 0 else "local")
+                if lx == "fn" and j + 1 < n and lex[j + 1] == "(":
+                    k = j + 2
+                    pd = 1
+                    while k < n and pd > 0:
+                        if lex[k] == "(":
+                            pd += 1
+                        elif lex[k] == ")":
+                            pd -= 1
+                        elif pd == 1 and kinds[k] == "Ident" and k + 1 < n and lex[k + 1] == ":" and lex[k - 1] in ("(", ",", ")"):
+                            out.setdefault(lex[k], set()).add("local")
+                        k += 1
+                if lx == "struct" and j + 1 < n and lex[j + 1] == "{":
+                    k = j + 2
+                    d = 1
+                    pd = 0
+                    while k < n and d > 0:
+                        if lex[k] == "{":
+                            d += 1
+                        elif lex[k] == "}":
+                            d -= 1
+                        elif lex[k] == "(":
+                            pd += 1
+                        elif lex[k] == ")":
+                            pd -= 1
+                        elif d == 1 and pd == 0 and kinds[k] == "Ident" and k + 1 < n and lex[k + 1] == ":" and lex[k - 1] in ("{", ",", ")"):
+                            out.setdefault(lex[k], set()).add("member")
+                        k += 1
+                    i = k - 1
+                    depth += 0
+        i += 1
+    return out
+
+
+def pack_targets(targets, entities):
+    """Systematic coverage: every target is assigned to some entity in some variant.  A variant is a dict
+    entity -> target in which no renamed entity occurs (case-insensitively) inside any target of the variant
+    (generated names embed user names: `Construct<T>`; renaming T would change the generated name).
+    -> (list of plans, list of targets that no entity can take)"""
+    plans = []
+    uncovered = []
+    cur = {}
+    ents = sorted(entities)
+
+    def fits(e, t, plan):
+        el = e.lower()
+        if el in t.lower():
+            return False
+        for e2, t2 in plan.items():
+            if el in t2.lower() or e2.lower() in t.lower():
+                return False
+        return True
+
+    for t in targets:
+        placed = False
+        for e in ents:
+            if e not in cur and fits(e, t, cur):
+                cur[e] = t
+                placed = True
+                break
+        if placed:
+            continue
+        if cur:
+            plans.append(cur)
+            cur = {}
+        for e in ents:
+            if fits(e, t, cur):
+                cur[e] = t
+                placed = True
+                break
+        if not placed:
+            uncovered.append(t)
+    if cur:
+        plans.append(cur)
+    return plans, uncovered
+
+
 def rename(lex, kinds, frozen, plan):
     return [plan.get(lx, lx) if (kinds[k] == "Ident" and k not in frozen) else lx for k, lx in enumerate(lex)]
 
